@@ -6,6 +6,7 @@ import (
 	"go/types"
 	"os"
 	"strings"
+	"sync"
 
 	"golang.org/x/tools/go/ssa"
 )
@@ -35,6 +36,12 @@ func init() {
 		Run:  c16Digest})
 }
 
+// c16ResultParams: named deferred handlers -> the parameter that points at the deferring function's error result.
+var (
+	c16ResultParams   = map[*ssa.Function]*ssa.Parameter{}
+	c16ResultParamsMu sync.Mutex
+)
+
 func c16Funcs(rc *RuleCtx) []*ssa.Function {
 	var out []*ssa.Function
 	for _, n := range []string{"CopyFile", "CopyFileHash", "HashFile", "copyBufPool"} {
@@ -44,6 +51,55 @@ func c16Funcs(rc *RuleCtx) []*ssa.Function {
 			continue
 		}
 		out = append(out, withAnon(f)...)
+		// named functions of the package that f defers (a deferred handler written as a function instead of a literal)
+		eachInstr(f, func(in ssa.Instruction) {
+			if d, ok := in.(*ssa.Defer); ok {
+				if g := d.Call.StaticCallee(); g != nil && g.Pkg == f.Pkg && len(g.Blocks) > 0 && g.Parent() == nil && !isEntryPoint(g) {
+					dup := false
+					for _, o := range out {
+						if o == g {
+							dup = true
+						}
+					}
+					if !dup {
+						out = append(out, g)
+						if p := deferredResultParam(rc, g); p != nil {
+							c16ResultParamsMu.Lock()
+							c16ResultParams[g] = p
+							c16ResultParamsMu.Unlock()
+						}
+					}
+				}
+			}
+		})
+	}
+	return out
+}
+
+// deferredResultParam: g is a named function deferred by a copy function with the address of that function's error
+// result as an argument; returns the parameter of g that receives it.
+func deferredResultParam(rc *RuleCtx, g *ssa.Function) *ssa.Parameter {
+	var out *ssa.Parameter
+	for _, n := range []string{"CopyFile", "CopyFileHash", "HashFile", "copyBufPool"} {
+		f := rc.C.fn("avfs", n)
+		if f == nil {
+			continue
+		}
+		pc := errCell(f)
+		if pc == nil {
+			continue
+		}
+		eachInstr(f, func(in ssa.Instruction) {
+			d, ok := in.(*ssa.Defer)
+			if !ok || d.Call.StaticCallee() != g {
+				return
+			}
+			for i, a := range d.Call.Args {
+				if strip(a) == ssa.Value(pc) && i < len(g.Params) {
+					out = g.Params[i]
+				}
+			}
+		})
 	}
 	return out
 }
@@ -208,23 +264,44 @@ func errorIsHandled(f *ssa.Function, ev ssa.Value) (string, bool) {
 			return "stored into the enclosing function's error result by the deferred handler (see C16.nonil for the condition)", true
 		}
 	}
+	// (2') the same from a named deferred handler, through the pointer it was given
+	c16ResultParamsMu.Lock()
+	p := c16ResultParams[f]
+	c16ResultParamsMu.Unlock()
+	if p != nil {
+		propagated := false
+		eachInstr(f, func(in ssa.Instruction) {
+			if s, ok := in.(*ssa.Store); ok && isEv(s.Val) && s.Addr == ssa.Value(p) {
+				propagated = true
+			}
+		})
+		if propagated {
+			return "stored into the deferring function's error result through the pointer handed to the deferred handler (see C16.nonil for the condition)", true
+		}
+	}
 	return "the error value is neither tested with a returning non-nil branch, nor returned, nor propagated", false
 }
 
 func c16NoNil(rc *RuleCtx) {
 	for _, f := range c16Funcs(rc) {
-		if f.Parent() == nil {
+		// the address through which the handler reaches the error result of the function that deferred it: the captured
+		// variable of a literal, or the pointer parameter of a named handler
+		var isResultAddr func(a ssa.Value) bool
+		if f.Parent() != nil {
+			pc := errCell(f.Parent())
+			isResultAddr = func(a ssa.Value) bool {
+				fv, ok := a.(*ssa.FreeVar)
+				return ok && pc != nil && freeVarBinding(fv) == ssa.Value(pc)
+			}
+		} else if p := deferredResultParam(rc, f); p != nil {
+			isResultAddr = func(a ssa.Value) bool { return a == ssa.Value(p) }
+		} else {
 			continue
 		}
-		pc := errCell(f.Parent())
 		n := 0
 		eachInstr(f, func(in ssa.Instruction) {
 			s, ok := in.(*ssa.Store)
-			if !ok {
-				return
-			}
-			fv, ok := s.Addr.(*ssa.FreeVar)
-			if !ok || pc == nil || freeVarBinding(fv) != ssa.Value(pc) {
+			if !ok || !isResultAddr(s.Addr) {
 				return
 			}
 			n++
@@ -239,9 +316,9 @@ func c16NoNil(rc *RuleCtx) {
 					return
 				}
 				if isNil {
-					// x must be a load of the same free var with no store in between
-					if u, ok := x.(*ssa.UnOp); ok && u.Op == token.MUL && u.X == ssa.Value(fv) {
-						vals, _ := reachingStores(fv, s)
+					// x must be a load of the same address with no store in between
+					if u, ok := x.(*ssa.UnOp); ok && u.Op == token.MUL && u.X == s.Addr {
+						vals, _ := reachingStores(s.Addr, s)
 						if len(vals) == 0 {
 							rc.good(cons, s.Pos(), "dominated by `result == nil`: only a nil result is overwritten")
 							return
